@@ -87,6 +87,9 @@ PROPS['C16']['trusted'] = PROPS['C16']['trusted'] + CONC_TRUST
 # C09, concurrent part: the same schedule exploration with HASH_LOGS=SYNC; the chain monitor (every stored hash chains from the
 # log with the next smaller id, by the trigger's rule) runs on the final logs of every explored schedule
 PROPS['C09']['ties'].append(sched_tie('C09', 'c16', 60, 3000))
+PROPS['C09']['level_text'] = PROPS['C09']['level_text'].replace(
+    'Concurrent schedules are reduced to a stated lemma, not explored by this check.',
+    'Concurrent schedules: C09_linear_serialized turns "inserts serialized by the advisory lock" into linearity, and the schedule harness explores the lock boundary on the real stack (2-3 writers, <= 2 deviations + random schedules, HASH_LOGS=SYNC) with the chain monitor on the raw logs.')
 PROPS['C09']['explanation'] += (' CONCURRENT: the advisory-lock boundary is explored by the schedule harness (2-3 writers, all schedules with <= 2 deviations + random ones, HASH_LOGS=SYNC): '
                                'on every explored schedule the stored chain is linear in id order (monitor [not-linear]/[not-chain-hash] on the raw logs); C09_linear_serialized is the lemma that '
                                'turns "inserts serialized by the lock" into linearity.' + _sched_note)
